@@ -79,15 +79,15 @@ CHECKS = {
 
 # later additions to a check, appended to its level text (see DESIGN.md §5 for each)
 ADDENDA_3 = {
-    "C01": " The N family pads messages up to 40 kB (frames reach the server's decoder in several reads). Chaos family: continuous traffic under seeded closes, partitions and server restarts; no subscriber may yield a foreign or duplicated message, and messages sent away from their publisher's outages arrive in order.",
+    "C01": " The N family pads messages up to 40 kB (frames reach the server's decoder in several reads). Chaos family: continuous traffic under seeded closes, partitions and server restarts; no subscriber may yield a foreign or duplicated message, and messages sent away from their publisher's outages arrive in order. Registration-race family: publishers and subscribers registering simultaneously on a new topic must all end up on one router.",
     "C04": " Chaos family: under seeded closes, partitions and server restarts every Ok reply must answer its own call.",
-    "C12": " Chaos family: once the seeded faults have stopped, every stream that kept its retry budget delivers / is answered again within 25 virtual seconds.",
+    "C12": " Chaos family: once the seeded faults have stopped, every stream that kept its retry budget delivers / is answered again within 25 virtual seconds. The cloned-requestor outage family of C04 also runs here.",
     "C02": " A requestor whose request stream ended but whose sink works (half-closed) stays owed its replies; the departures family runs for C02 too.",
     "C03": " A quarter of the runs have subscriber churn around the judged subscribers; a client stream dropped by the server on a loss-free network is a violation.",
     "C06": " Long runs (up to 40000) of well-formed frames that carry nothing, with the victim on a 2 MiB stack; hostile-server family: the real client against a raw endpoint answering registrations with crafted Error texts (long, multi-byte across cut-offs, not UTF-8), wrong-kind frames, non-frames, nothing.",
     "C08": " R scripts include connection deaths (stream end and sink failure at the same instant).",
-    "C10": " N smoke: a standby library replier (40 attempts, 300 ms apart) must take over once the bound replier left.",
-    "C11": " hostile-server family: an Error answer must surface as an error from open()/listen(), nothing may panic.",
+    "C10": " N smoke: a standby library replier (40 attempts, 300 ms apart) must take over once the bound replier left. Registration-race family: simultaneous first registrations of several repliers on a new topic under seeded yield injection at the server's locks: exactly one bound, all others explicitly refused.",
+    "C11": " hostile-server family: an Error answer must surface as an error from open()/listen(), nothing may panic. Registration-race family: simultaneous first registrations of mixed kinds on a new topic: one kind wins, the other is refused with TOPIC_KIND_MISMATCH, every accepted peer is served.",
     "C13": " The order of the three builder setters is seeded.",
     "C15": " Fourth server identity (issued by the other CA, presented as its own full chain; 16 pairings); renewal also after a first client was built from the same paths; the server is built by Server::try_from(UserArgs) (hook H5).",
     "C17": " Topic B is also probed over the very connection whose publisher is blocked on topic A.",
